@@ -71,7 +71,8 @@ fn check(c: &Case, ctx: &Ctx) -> Outcome {
         let mut args: Vec<String> = vec!["delete".into(), "-s".into(), "x.skf".into()];
         if !c.in_place {
             args.push("-o".into());
-            args.push("y".into());
+            // with or without the .skf suffix
+            args.push(if n % 2 == 0 { "y.skf".into() } else { "y".into() });
         }
         if c.names_file {
             std::fs::write(dir.join("names.txt"), del_names.join("\n") + "\n").unwrap();
